@@ -251,7 +251,11 @@ func ReceivePack(
 		_ = opts.Hooks.PostReceive(ctx, info)
 	}
 
-	if err := sendReportStatus(writeCloser, firstErr, cmdStatus); err != nil {
+	// The unpack line reports unpacking only (it succeeded, or we would
+	// not be here); command failures go to their own "ng" lines. Putting
+	// the first command error there made clients treat a push as failed as
+	// a whole although other references had been updated.
+	if err := sendReportStatus(writeCloser, nil, cmdStatus); err != nil {
 		return err
 	}
 
